@@ -513,7 +513,7 @@ def correspondence(chk, n_sf, n_tps, n_axis, xm_hi, nmax=16):
             elif not all(abs(v - w) <= 1e-7 * scale for v, w in zip(vals[nm:], ei)):
                 err_mismatch += 1     # the error estimate is not part of the property: recorded, not a verdict
         elif op == "axis":
-            if len(vals) != len(impl) or any(common.f2h(v) != common.f2h(w) for v, w in zip(vals, impl)):
+            if len(vals) != len(impl) or any(abs(v - w) > 1e-13 * max(abs(v), abs(w)) for v, w in zip(vals, impl)):    # to rounding
                 chk.broke("correspondence", "C19 axis: model %r, real code %r at %r" % (vals[:4], impl[:4], info), line)
     if err_mismatch:
         chk.notes.append("tps_err (std over sub-apertures / sqrt(n_sub), outside the property's text) differs from the model in %d cases"
